@@ -14,6 +14,7 @@ import (
 	"context"
 	"fmt"
 	"math"
+	"os"
 	"sort"
 	"strings"
 	"unsafe"
@@ -41,6 +42,9 @@ type pField struct {
 	keykind int
 	kind    int    // scalar kind, 0 = named
 	ref     string // as written
+	// text-only decoration (the descriptor must not depend on it): member of oneof group n / proto3 `optional`
+	oneof    int
+	optional bool
 }
 
 type pMsg struct {
@@ -141,8 +145,27 @@ func (m *pMsg) text(ind string) string {
 	for _, c := range m.nested {
 		sb.WriteString(c.text(ind + "  "))
 	}
+	open := 0
 	for _, f := range m.fields {
-		sb.WriteString(ind + "  " + f.text() + "\n")
+		if open != 0 && f.oneof != open {
+			sb.WriteString(ind + "  }\n")
+			open = 0
+		}
+		if f.oneof != 0 && open == 0 {
+			sb.WriteString(fmt.Sprintf("%s  oneof one_of_%d {\n", ind, f.oneof))
+			open = f.oneof
+		}
+		pre := ind + "  "
+		if open != 0 {
+			pre += "  "
+		}
+		if f.optional {
+			pre += "optional "
+		}
+		sb.WriteString(pre + f.text() + "\n")
+	}
+	if open != 0 {
+		sb.WriteString(ind + "  }\n")
 	}
 	sb.WriteString(ind + "}\n")
 	return sb.String()
@@ -439,7 +462,7 @@ func genSchema(r *rng, prof c15Profile) *pSchema {
 		if r.chance(10) {
 			nm = 0
 		}
-		if i == nsvc-1 && nm == 0 {
+		if i == nsvc-1 && nm == 0 && r.chance(70) {
 			nm = 1
 		}
 		for j := 0; j < nm; j++ {
@@ -552,7 +575,19 @@ func genFields(r *rng, s *pSchema, f *pFile, m *pMsg, used map[string]bool, prof
 	}
 	sort.Strings(msgs)
 	sort.Strings(enums)
+	group := 0
 	for i, fl := range m.fields {
+		if fl.label == 0 {
+			switch {
+			case r.chance(12):
+				group++
+				fl.oneof = group
+			case group > 0 && i > 0 && m.fields[i-1].oneof == group && r.chance(50):
+				fl.oneof = group
+			case r.chance(8):
+				fl.optional = true
+			}
+		}
 		c := r.intn(100)
 		if prof.allKinds {
 			c = 0
@@ -1103,6 +1138,9 @@ func genC15(r *rng, n int) {
 		schemas = append(schemas, genSchema(r.fork(), prof))
 	}
 	for si, s := range schemas {
+		if os.Getenv("C15_DUMP") != "" && si < 14 {
+			fmt.Fprintf(os.Stderr, "==== schema %d\n%s", si, dumpTexts(s))
+		}
 		var sch []string
 		s.emit(&sch)
 		rfd, triage, ntri := referenceParse(s)
